@@ -144,13 +144,7 @@ pub proof fn lemma_div_scale(N: int, D: int, q: int, r: int, bs: int, q0: int, r
 
 // ---- TRUSTED stubs of float/src/repr.rs used by Context::{div, inv}
 impl<const B: Word> Repr<B> {
-    /// repr.rs `Repr::digits_lb`: "lower bound of digits in the significand" from the f32 estimate `log2_bounds().0`
-    /// (`log as usize`).  ASSUMED enclosure (f32 arithmetic, not verified): not above the exact number of digits.
-    #[verifier::external_body]
-    pub fn digits_lb(&self) -> (r: usize)
-        requires B >= 2, !(self.significand.v() == 0 && self.exponent != 0)
-        ensures r <= ndigits(B as int, self.significand.v())
-    { unimplemented!() }
+    // (`Repr::digits_lb`: the stub lives in lib/round_float_repr.rs next to digits_ub)
     /// repr.rs `Repr::one`: `Self { significand: IBig::ONE, exponent: 0 }`
     #[verifier::external_body]
     pub fn one() -> (r: Self) ensures r.significand.v() == 1, r.exponent == 0 { unimplemented!() }
